@@ -7,6 +7,7 @@ import (
 	"verifengine/vf"
 
 	_ "verifengine/props/c01"
+	_ "verifengine/props/c02"
 	_ "verifengine/props/c03"
 	_ "verifengine/props/c04"
 	_ "verifengine/props/c05"
